@@ -88,7 +88,11 @@ def seeded(check, only=None, tier="quick"):
     for d in sorted(glob.glob(os.path.join(VERIF, "seeded", "*"))):
         meta = os.path.join(d, "meta.json")
         if os.path.exists(meta):
-            idx.append({"name": os.path.basename(d), "patch": os.path.join(d, "patch.diff"), "props": [json.load(open(meta))["property"]]})
+            mj = json.load(open(meta))
+            if mj.get("known_limit"):
+                print("seeded %s: recorded as a known limit of the check (not run)" % os.path.basename(d))
+                continue
+            idx.append({"name": os.path.basename(d), "patch": os.path.join(d, "patch.diff"), "props": [mj["property"]]})
     return run_changes(check, idx, only, tier, os.path.join(VERIF, "seeded", "LAST_RUN.json"))
 
 
